@@ -130,7 +130,10 @@ def _parse_races(text):
 # against the static-lease API and the lease store; home: config.write and the
 # SIGHUP reload against the TLS and filtering handlers.
 STRESS_PKGS = {
-    "dnsforward": {"internal/dnsforward/zz_verif_C05_test.go": "harness/dnsforward/zz_verif_C05_test.go"},
+    "dnsforward": {"internal/dnsforward/zz_verif_C05_test.go": "harness/dnsforward/zz_verif_C05_test.go",
+                   # crash search in a child process (client edit sequences; query log / statistics
+                   # clears and configuration updates against constant flushing)
+                   "internal/dnsforward/zz_verif_C05crash_test.go": "harness/dnsforward/zz_verif_C05crash_test.go"},
     "dhcpd": {"internal/dhcpd/zz_verif_C05_test.go": "harness/dhcpd/zz_verif_C05_test.go"},
     "home": {"internal/home/zz_verif_C05_test.go": "harness/home/zz_verif_C05_test.go",
              "internal/home/zz_verif_common_test.go": "harness/home/zz_verif_common_test.go"},
@@ -161,7 +164,7 @@ def _stress(ctx, tbl, known, race, millis, seed, pkg="dnsforward"):
     env.update({"VERIF_SEED": str(seed), "VERIF_OUT": outdir, "VERIF_C05_MS": str(millis),
                 "GORACE": "log_path=%s halt_on_error=0" % os.path.join(outdir, "race")})
     env.setdefault("VERIF_C05_REENTRANT", "1" if _reentrant(tbl) else "0")
-    cmd = ["go", "test", "-overlay", ov, "-tags", "verif", "-count=1", "-vet=off", "-run", "^TestVerifC05Stress$",
+    cmd = ["go", "test", "-overlay", ov, "-tags", "verif", "-count=1", "-vet=off", "-run", "^TestVerifC05(Stress|Crash)$",
            "-timeout", "%ds" % (millis // 1000 + 240)]
     if race:
         cmd.append("-race")
@@ -172,6 +175,8 @@ def _stress(ctx, tbl, known, race, millis, seed, pkg="dnsforward"):
         ctx.fail("harness", "C05 stress harness of %s no longer builds against the current tree" % pkg, detail=out[-3000:])
         return stats
     rp = os.path.join(outdir, "c05_stress.json")
+    if pkg == "dnsforward" and os.path.exists(rp):
+        stats["crash_search"] = _crash_search(ctx, outdir, seed, out)
     if not os.path.exists(rp):
         # the process died: unrecoverable runtime error (e.g. concurrent map read and map write)
         m = re.search(r"(fatal error: [^\n]*|panic: [^\n]*)", out)
@@ -261,6 +266,56 @@ def _stress(ctx, tbl, known, race, millis, seed, pkg="dnsforward"):
                       # goal: every known finding that is a data race is reproduced by the search
                       "known_access_findings_reproduced": reproduced})
     return stats
+
+
+def _first_repo_fn(text):
+    frames = re.findall(r"\n(github.com/AdguardTeam/AdGuardHome/internal/\S+)\(", "\n" + text)
+    return _norm_fn(next((f for f in frames if "TestVerifC05" not in f and ".c05" not in f), "?"))
+
+
+def _crash_search(ctx, outdir, seed, out):
+    """TestVerifC05Crash (harness/dnsforward/zz_verif_C05crash_test.go): the search ran in a child
+    process; c05_crash.json says whether the child died (a panic in a goroutine nobody can recover
+    from: flush goroutine of the query log, statistics flusher, ...), with its stderr trace and the
+    tail of the operation journal as the replay."""
+    rp = os.path.join(outdir, "c05_crash.json")
+    if not os.path.exists(rp):
+        ctx.fail("harness", "C05 crash search left no report (c05_crash.json)", detail=out[-3000:])
+        return {"ran": False}
+    rep = json.load(open(rp))
+    child = rep.get("child") or {}
+    res = {"ran": True, "child_exit": rep.get("child_exit"), "child_completed": rep.get("child_completed"), "millis": rep.get("millis")}
+    res.update({k: child.get(k) for k in ("querylog_mem_size", "queries", "admin_ops", "client_edit_steps", "queries_after_client_edits",
+                                          "querylog_clears", "stats_resets", "log_config_updates", "logs_phase_ended_by_time_cap")})
+    journal = rep.get("journal_tail") or []
+    for i, p in enumerate(child.get("panics") or []):
+        where = _first_repo_fn(p)
+        head = p.splitlines()[0]
+        msg = head.rsplit("]: ", 1)[-1] if "]: " in head else head
+        ctx.fail("property-failure", "panic under live reconfiguration: %s in %s, at: %s" % (msg, where, head.split(" after [")[0]),
+                 finding_key="panic:" + where, failing_input_found=True,
+                 detail={"case": {"id": "crashsearch-panic-%d-%d" % (seed, i), "seed": seed,
+                                  "desc": {"kind": "panic (crash search, recovered in a harness goroutine)", "seed": seed,
+                                           "operations_before": journal, "panic": p}}})
+    for i, m in enumerate(child.get("malformed") or []):
+        ctx.fail("property-failure", "in-flight query without a well-formed response: " + m, finding_key="malformed", failing_input_found=True,
+                 detail={"case": {"id": "crashsearch-malformed-%d-%d" % (seed, i), "seed": seed, "desc": {"kind": "malformed", "seed": seed, "what": m}}})
+    if rep.get("timed_out"):
+        ctx.fail("property-failure", "stall: the crash-search child did not finish within its budget; goroutine dump in the replay",
+                 finding_key="stall", failing_input_found=True,
+                 detail={"case": {"id": "crashsearch-stall-%d" % seed, "seed": seed,
+                                  "desc": {"kind": "stall", "seed": seed, "operations_before": journal, "goroutines": rep.get("trace")}}})
+    elif rep.get("crashed") and not (child.get("panics") or []):
+        trace = rep.get("trace") or ""
+        m = re.search(r"(fatal error: [^\n]*|panic: [^\n]*)", trace)
+        where = _first_repo_fn(trace)
+        ctx.fail("property-failure", "server process died under live reconfiguration (exit %s): %s in %s; last operations: %s"
+                 % (rep.get("child_exit"), m.group(1) if m else "no panic message", where, " ; ".join(journal[-3:])),
+                 finding_key="crash:" + where, failing_input_found=True,
+                 detail={"case": {"id": "crashsearch-died-%d" % seed, "seed": seed,
+                                  "desc": {"kind": "crash (panic in a goroutine the harness did not start; child process of the search died)",
+                                           "seed": seed, "exit": rep.get("child_exit"), "operations_before": journal, "trace": trace}}})
+    return res
 
 
 def _reverts(ctx):
@@ -403,7 +458,8 @@ def extra(ctx):
             k for k in known & present if "<" not in k
             and not any(k in (x.get("known_access_findings_reproduced") or {}) for x in stress))
             if any(x.get("race_detector") for x in stress) else "n/a (quick tier: no race detector)"),
-        "evaluations": sum((x.get("queries") or 0) + (x.get("admin_ops") or 0) for x in stress),
+        "evaluations": sum((x.get("queries") or 0) + (x.get("admin_ops") or 0)
+                           + sum((x.get("crash_search") or {}).get(k) or 0 for k in ("queries", "admin_ops", "client_edit_steps")) for x in stress),
         "samples": [{"root": a["root"], "fn": a["fn"], "field": a["field"], "write": a["write"], "held": a["held"], "pos": a["pos"]}
                     for a in accesses[:: max(1, len(accesses) // 5)][:5]],
     })
